@@ -325,6 +325,26 @@ settle:
 				st.StallTicks++
 				time.Sleep(3 * time.Millisecond)
 				w.HoldEvents(false)
+				if f.Who >= 0 {
+					// ... and a worker is lost as soon as that checkpoint has been published,
+					// so that the recovery starts from it
+					before := uint64(0)
+					if sn := w.Snapshots(); len(sn) > 0 {
+						before = sn[len(sn)-1]
+					}
+					go func() {
+						if WaitFor(3*time.Second, func() bool {
+							sn := w.Snapshots()
+							return len(sn) > 0 && sn[len(sn)-1] > before
+						}) {
+							time.Sleep(200 * time.Microsecond)
+							select {
+							case actions <- Fault{Kind: "kill", Who: f.Who}:
+							default:
+							}
+						}
+					}()
+				}
 			case "slowassign":
 				w.mu.Lock()
 				slowAssign = max(1, p.Cfg.Workers)
